@@ -30,6 +30,7 @@ type FnReport struct {
 	GenTime   time.Duration
 	SolveTime time.Duration
 	Unrolled  []string
+	Killers   []*Obligation // obligations whose goal is constantly false: assuming them ended their path
 }
 
 func (p *Program) newExec(mode ExecMode) *Exec {
@@ -109,6 +110,7 @@ func (p *Program) genObligationsOnce(fn *ssa.Function, mode ExecMode, rel *relCt
 	}()
 	rep.GenTime = time.Since(start)
 	rep.Obs = ex.obs
+	rep.Killers = ex.killers
 	rep.Covers = ex.covers
 	rep.Aborted = ex.aborted
 	rep.Paths = ex.paths
